@@ -229,11 +229,11 @@ theorem bodyA_lock : ∀ (p : Prog) (gen : Bool) (t : Nat) (env : List Val) (cau
   | .sync c child k h, gen, t, env, caught, i, s, s', hm, hm', hc, _, _, hl => by
     -- refused on the asyncio side: from here on the asyncio log is frozen up to this point, both logs only grow
     have hA : bodyA gen t env caught i (.sync c child k h) s =
-        bodyA gen t env (some .syncRefused) i h (s.emit (.syncX t (.err .syncRefused))) := by
-      simp [bodyA, hm, Err.isBase]
+        bodyA gen t env (some (refusal c)) i h (s.emit (.syncX t (.err (refusal c)))) := by
+      simp [bodyA, hm]
     rw [hA]
     exact .inr ((Div.ofSync hl rfl).ext
-      (bodyA_good h gen t env (some .syncRefused) i _ (by simp [hm])).2.logExt
+      (bodyA_good h gen t env (some (refusal c)) i _ (by simp [hm])).2.logExt
       (bodyR_good (.sync c child k h) gen t env caught i s' hm' hc).2.logExt)
   | .yld hb y k h, gen, t, env, caught, i, s, s', hm, hm', hc, hp, hx, hl => by
     simp only [Prog.plainY, Bool.and_eq_true] at hp
